@@ -105,7 +105,7 @@ func Solve(workDir, name, script string, timeoutS int, seed int, allSolvers bool
 	type ans struct {
 		name, a, out string
 	}
-	// the race: every solver with the given seed, and the usually fastest one with two further seeds (queries that take
+	// the race: every solver with the given seed, and the usually fastest one with four further seeds (queries that take
 	// seconds are the ones whose time depends on the seed; a different seed often decides them at once)
 	type racer struct {
 		sp   solverSpec
@@ -117,7 +117,9 @@ func Solve(workDir, name, script string, timeoutS int, seed int, allSolvers bool
 		racers = append(racers, racer{sp, seed, sp.name})
 	}
 	if !allSolvers {
-		for k := 1; k <= 2; k++ {
+		// (four further seeds: measured on the request plumbing of GetData, about one seed in twelve runs into the
+		// timeout on a query the others decide in half a second; consecutive seeds fail together more often than not)
+		for _, k := range []int{1, 2, 5, 11} {
 			racers = append(racers, racer{solvers[0], seed + k, solvers[0].name})
 		}
 	}
@@ -364,7 +366,7 @@ func SolveAll(obls []*Obligation, workDir string, timeoutS, seed, workers int, a
 		for _, i := range retry {
 			o := out[i].O
 			script := o.B.Script([]string{o.Reach, not(o.Goal)}, false)
-			r := Solve(workDir, o.Name()+".retry", script, 4*timeoutS, seed, false)
+			r := Solve(workDir, o.Name()+".retry", script, 4*timeoutS, seed+3, false) // other seeds than the first attempt
 			if r.Status == o.Expect && !r.Disagree {
 				r.Detail = "decided at the second attempt (the first one timed out)\n" + r.Detail
 				out[i] = OblOutcome{O: o, Res: r, OK: true}
